@@ -190,6 +190,8 @@ func C01(p *Prog, r *Run) {
 
 	r.Rule("C01.5", "add-link never targets a sensor and never duplicates a link; connect-sensors adds only missing links (shared with C05)", func() {
 		r.checkAddLink(sums)
+		r.Mode = "well-formed"
+		defer func() { r.Mode = "" }()
 		r.checkConnectSensors(sums)
 	})
 
@@ -249,6 +251,8 @@ func C01(p *Prog, r *Run) {
 	})
 
 	r.Rule("C01.7", "duplication remaps every node and trait reference by id into the copy's own lists (shared with C06)", func() {
+		r.Mode = "own-lists"
+		defer func() { r.Mode = "" }()
 		r.c06Remap(sums)
 	})
 }
